@@ -163,6 +163,8 @@ def standalone_support(prefix):
 
 
 _PRISTINE = {}
+STATE_CHANGES = []
+_ESCALATED = [0]
 
 
 def pristine_digest():
@@ -206,10 +208,11 @@ def run_history(ops, reference):
                                 f'op {i} {ops[i]} | history={ops}'))
         digest = module_globals_digest()
         if digest != pristine:
+            # hidden module / class level state is no violation by itself (a transparent cache is allowed): it is part of the
+            # canonical state (the pruned search goes on from here) and makes _one() explore continuations of this history
             diff = ['.'.join(x for x in a[:3] if isinstance(x, str)) for a, b in zip(pristine, digest) if a != b][:3]
-            out.append((f'module-state-changed:{diff[0] if diff else "new-attribute"}',
-                        f'after op {i} {ops[i]}: {diff} | history={ops}'))
-            _PRISTINE['d'] = digest   # report once, go on relative to the new state
+            STATE_CHANGES.append((diff[0] if diff else 'new-attribute', [list(o) for o in ops[:i + 1]]))
+            _PRISTINE['d'] = digest
             pristine = digest
     canon = jhash([repr(before), repr(snap(vars(world.builder))), repr(module_globals_digest())])
     return out, canon
@@ -331,8 +334,18 @@ def work(job):
     return part
 
 
-def _one(hist, reference, part):
+def _one(hist, reference, part, escalate=True):
+    del STATE_CHANGES[:]
     res, canon = run_history(hist, reference)
+    if STATE_CHANGES and not res and escalate and _ESCALATED[0] < 3 and len(hist) <= 3:
+        # ESCALATION: the history left something behind at module / class level: every continuation by one operation and by the
+        # same operation twice is explored as well (histories of up to len + 2)
+        _ESCALATED[0] += 1
+        attr = STATE_CHANGES[0][0]
+        part.extra['histories_that_changed_module_state'] += 1
+        for op in OPS:
+            for tail in ([op], [op, op]):
+                _one(hist + [list(o) for o in tail], reference, part, escalate=False)
     part.evaluations += 1
     part.transitions += len(hist)
     part.nontrivial += 1 if len(hist) > 1 else 0
